@@ -323,7 +323,15 @@ def prop_replace(r, S, pid, f):
     else:
         anchor, attr, idx, n = f.block_of(x[0])
         b = A_block(pid, anchor, attr, idx, idx + 1)
-    callee = r.choice(S.callee_pool())
+    pool = S.callee_pool()
+    if x and r.random() < 0.75:
+        hi = x[1].hi
+        four = isinstance(hi, LoopIR.Const) and hi.val == 4
+        pref = ["ld4", "add4", "fma4", "zero4", "ldn"] if four else ["vcopy", "vaxpy", "vscale_cfg"]
+        if four and any(isinstance(st, LoopIR.If) for st in x[1].body):
+            pref = ["ldn", "ldn", "ld4"]
+        pool = [q for q in pool if q in pref or q.startswith("s")] or pool
+    callee = r.choice(pool)
     return [b, A_proc(callee)], {"quiet": True}
 
 
@@ -1407,7 +1415,40 @@ def generate_and_run(seed: int, cfg: dict, log_keep=False) -> dict:
     live = ["p"]
     k = 0
     wl = [weights.get(o, 1.0) for o in ops_allowed]
+    def run_rec(rec):
+        data["ops"].append(rec)
+        S.apply(rec)
+        return rec["out"] in S.procs
+
+    # macro (C10/C11): derive a variant of a callee with a configuration rewrite, then swap it in with call_eqv
+    if r_ops.random() < cfg.get("call_eqv_macro", 0.0):
+        feat = Feat(S.procs["p"]._loopir_proc)
+        calls = [(pth, st) for pth, st in feat.get("Call") if any(S.procs[q]._loopir_proc is st.f for q in gen_prog.LIB_PROCS if q in S.procs)]
+        if calls:
+            pth, st = r_ops.choice(calls)
+            callee = [q for q in gen_prog.LIB_PROCS if q in S.procs and S.procs[q]._loopir_proc is st.f][0]
+            cur = callee
+            for _ in range(r_ops.randint(1, 2)):
+                nm = r_ops.choice(["write_config", "delete_config", "bind_config", "write_config", "simplify", "delete_config"])
+                try:
+                    pr = PROPOSERS[nm](r_ops, S, cur, Feat(S.procs[cur]._loopir_proc))
+                except Exception:
+                    pr = None
+                if not pr:
+                    continue
+                k += 1
+                if run_rec({"op": nm, "on": cur, "out": f"r{k}", "args": pr[0], "kw": pr[1], "stale": False}):
+                    cur = f"r{k}"
+                if S.viol and not cfg.get("survey"):
+                    break
+            if cur != callee and not (S.viol and not cfg.get("survey")):
+                k += 1
+                if run_rec({"op": "call_eqv", "on": "p", "out": f"r{k}", "args": [A_node("p", pth), A_proc(cur)], "kw": {}, "stale": False}):
+                    live.append(f"r{k}")
+
     for i in range(n_ops):
+        if S.viol and not cfg.get("survey"):
+            break
         # choose target: mostly the newest descendant of p, sometimes older ones or a library proc
         u = r_ops.random()
         if u < 0.70:
